@@ -13,6 +13,14 @@ Streams (all on the real ``Ptychography`` class, tiny CPU float32 problems from 
                   object is continued as well, before or after its clone (both orders over the cases)
   resave          a checkpoint written with mode="o" over an OLDER checkpoint of the same path (zip and dir)
                   after a reset with a smaller optimizer set / fewer snapshots reloads as what was saved
+  session         call histories on one object with calls the library REJECTS at every argument stage (batch size, reset
+                  meeting a stored configuration that was rejected, constraint key / category, optimizer key / type /
+                  keyword, scheduler key / type / missing type, loss type — with and without reset=True and with valid
+                  optimizer_params before the offending entry), staged optimisation (optimizers added to / removed from
+                  models between stages without a reset), valid resets, scheduler changes, alternative argument forms
+                  (list / tuple optimizer_params, optimizer classes and upper-case type strings, autograd=False, device=,
+                  from_file(device=)); every call of the history is a split point (pinned stream), and after EVERY call the
+                  call-level Lean model (Model/CheckpointSession.lean) must agree with the real session (stream trace-session)
   trace           the recorded event trace of the same runs is replayed on the Lean model
                   (Model/Checkpoint.lean): every reconnect_optimizer_to_parameters call (parameter
                   identities, optimizer-state key order before/after `.to()`), every _record_iter
@@ -29,23 +37,28 @@ import time
 LEVEL = "proof"
 MANIFEST_ENTRY = {
     "category": "proof",
-    "text": "Lean 4 theorems over a protocol-level model of Ptychography checkpointing (Model/Checkpoint.lean): an abstract full-batch iteration (loss, gradient-presence, per-parameter optimizer update and scheduler are parameters of every theorem) over a concrete state — per-model parameter lists, torch-style optimizer state keyed by parameter in insertion order, LR bookkeeping of _record_iter, constraints — with save = skip-list projection composed with the C01 serializer model, from_file = C01 load + re-binding by reconnect_optimizer_to_parameters, clone = save/load fallback. Proved: resume equivalence iter^[n-k](fromFile(save(iter^[k] r))) = iter^[n] r for every split k <= n, every step function and every well-formed state, by instantiating the round-trip hypothesis with the C01/C14 round-trip theorems plus reconnect_preserves; the re-binding keeps every parameter's moments for every state (keyed by parameter), whereas the former positional re-keying keeps them iff the state keys are a prefix of the parameter list (counterexample: a parameter that never received a gradient shifts the moments to the wrong parameter and resume equivalence fails); _record_iter keeps every LR history as long as the iteration count and equals the per-iteration lookup with 0.0 for absent optimizers, for every sequence of iterations/resets with optimizers added or removed. Tied to the code on every run by a run-level differential check on real reconstructions (optimizers sgd/adam/adamw x LRs x schedulers none/plateau/exp/cyclic/linear x object types x 1-2 probe modes x 1-2 slices x zip/dir x every split point) and by replaying the recorded event trace (optimizer-state key order before/after .to(), LR bookkeeping, which parameters have state) on the Lean model. The source object is continued as well (before or after its clone), clone/reload must share no Parameter/optimizer/scheduler/model object with the source, and checkpoints re-saved with mode='o' over an older checkpoint of the same path (zip and dir, smaller optimizer set, fewer snapshots) must reload as saved.",
-    "note": "Partial by nature: Lean proves that resume equivalence follows from component-wise round trip + re-binding + bookkeeping on the model; that torch's pickled modules/optimizers/schedulers really round-trip (the Pickle hypothesis of the theorems) and that the real numerical run is reproduced to tolerance is measured on every run, not proved. Full-batch only; the batch order is pinned through the public rng setter in the deterministic stream and left to the library in the natural stream. DIP/parametric models and GPU device moves are not exercised.",
-    "technique": "Lean 4 proof (iterate/induction, list lemmas, reuse of C01/C14 round-trip theorems) + run-level differential check and event-trace correspondence",
+    "text": "Lean 4 theorems over a protocol-level model of Ptychography checkpointing (Model/Checkpoint.lean + Model/CheckpointSession.lean): an abstract full-batch iteration (loss, gradient-presence, per-parameter optimizer update and scheduler are parameters of every theorem) over a concrete state — per-model parameter lists, torch-style optimizer state keyed by parameter in insertion order, stored optimizer / scheduler configuration, LR bookkeeping of _record_iter, constraints — with save = skip-list projection composed with the C01 serializer model, from_file = C01 load + re-binding by reconnect_optimizer_to_parameters, clone = save/load fallback, and ONE reconstruct(...) CALL modelled branch by branch in source order including every branch that raises part-way (batch_size setter, reset_recon = parameter re-creation + optimizer rebuild with the re-binding on failure, constraints setter, optimizer_params setter + set_optimizers, scheduler_params setter, set_schedulers, _set_targets, the loop). Proved: resume equivalence iter^[n-k](fromFile(save(iter^[k] r))) = iter^[n] r for every split k <= n, every step function and every well-formed state; the same OVER EVERY HISTORY OF CALLS, accepted or rejected at any stage, split after any prefix (resume_eq_history_checkpoint / _clone), from the exception-safety invariant that every call keeps every optimizer bound to the live parameters (call_keeps_invariant, history_keeps_invariant, reset_recon_exception_safe: holds whatever the optimizers were bound to before), with a counterexample for reset_recon before the repair (reset_unrepaired_counterexample: the rejected reset leaves the optimizer on the discarded tensor, the uninterrupted run stops training, the reloaded one does not); the re-binding keeps every parameter's moments for every state (keyed by parameter), whereas the former positional re-keying keeps them iff the state keys are a prefix of the parameter list (counterexample); _record_iter keeps every LR history as long as the iteration count and equals the per-iteration lookup with 0.0 for absent optimizers, for every sequence of iterations/resets with optimizers added or removed. Tied to the code on every run by a run-level differential check on real reconstructions (optimizers sgd/adam/adamw x LRs x schedulers none/plateau/exp/cyclic/linear x object types x 1-2 probe modes x 1-2 slices x zip/dir x every split point; session histories with rejected calls, staged optimisation, autograd on/off and alternative argument forms with every call a split point), by replaying the recorded event trace (optimizer-state key order before/after .to(), LR bookkeeping, which parameters have state) on the Lean model, and by running the call-level model next to the real session and comparing after every call: raised or not, optimizer / scheduler / stored configuration per model, optimizer bound to the live parameters, scheduler attached to the live optimizer, iteration count, LR-history keys and lengths. The source object is continued as well (before or after its clone), clone/reload must share no Parameter/optimizer/scheduler/model object with the source, and checkpoints re-saved with mode='o' over an older checkpoint of the same path must reload as saved.",
+    "note": "Partial by nature: Lean proves that resume equivalence follows from component-wise round trip + re-binding + bookkeeping + exception safety of the call level on the model; that torch's pickled modules/optimizers/schedulers really round-trip (the Pickle hypothesis of the theorems) and that the real numerical run is reproduced to tolerance is measured on every run, not proved. Transient .grad tensors (never in a checkpoint) are not in the model: that stale gradients of a model without optimizer are never consumed is measured by the staged-optimisation histories only. Full-batch only; the batch order is pinned through the public rng setter in the deterministic stream and left to the library in the natural stream. DIP/parametric models, validation splits and GPU device moves are not exercised.",
+    "technique": "Lean 4 proof (iterate/induction over call histories, invariants incl. rejected calls, list lemmas, reuse of C01/C14 round-trip theorems) + run-level differential check, event-trace and call-level session correspondence",
 }
-RULE = ("one case = one (configuration, split point): three real runs (uninterrupted, save/from_file/continue, clone/continue); "
+RULE = ("one case = one (configuration, split point): real runs (uninterrupted, save/from_file/continue, clone/continue, saved source continued); "
         "distinct non-trivial = distinct (optimizer types, schedulers, optimized keys, object type, probes, slices, store, raw, "
-        "program shape, split position class first/inner/last, pinned|natural) with at least one iteration in total")
+        "program shape, split position class first/inner/last, pinned|natural; for session histories also the sequence of call kinds "
+        "incl. the kind of every rejected call, the split call, autograd, from_file device) with at least one iteration in total")
 TRUSTED = ["torch.save/torch.load (pickle) of whole nn.Module objects incl. their optimizer and scheduler: hypothesis `Pickle` of the theorems, observed by the reports/resume streams",
            "torch optimizers are per-parameter updates that skip parameters whose .grad is None (the abstract `upd`/`grad` of the model); LR schedulers are functions of (scheduler state, loss, lr)",
-           "NumPy Generator / torch CPU kernels are deterministic for equal seeds and thread count (measured: pinned stream deviation)"]
+           "the classification of a call's arguments handed to the call-level model (valid / unknown key, known / unknown / 'none' optimizer and scheduler type, accepted / rejected keyword, batch size, loss type) is computed by the harness from the arguments and the DEFAULT_CONSTRAINTS tables of the real classes; that the library rejects exactly these is what the trace-session stream compares",
+           "NumPy Generator / torch CPU kernels are deterministic for equal seeds and thread count (one thread; measured: pinned stream deviation 0)"]
 ASSUMPTIONS = ["'continuing with the same calls': the call program is split at the checkpoint into (calls up to it, continuation); all arms execute exactly the same calls, the continuation of a split call carries no optimizer/scheduler arguments (those re-create the optimizers in the library)",
+               "a call the library rejects is a call of the history like any other: every arm executes it (before or after the checkpoint), its exception is caught and the caller carries on; the property is judged on the observables only (iteration count, losses, LR history, object, probe, constraints, snapshots)",
                "'saving it together with its data' = save_raw_data=True; the save_raw_data=False + from_file(dset=fresh dataset) route is exercised only for configurations without a dataset optimizer / dataset constraints (the dataset's optimizer is not in the file on that route)",
                "pinned stream: every arm sets p.rng = s (public setter) before the first continuation call; natural stream: nothing is set, the reloaded object's full-batch permutation differs (summation order only)",
                "tolerances: relative to the largest magnitude of the uninterrupted observable; pinned 1e-6 (measured: exactly 0), natural 1e-5 (property text). In the natural stream the floating-point observables are judged only for well-conditioned cases: the uninterrupted run is repeated with two other full-batch orders and must move by <= 2e-7 (measured: among 668 cases judged at a 5e-7 floor the largest reload/clone deviation was 4.9e-6, so the floor was tightened to keep a margin below 1e-5); otherwise (Adam-amplified rounding noise, large cyclic LRs) only iteration count, constraints and LR-history keys/lengths are judged there and the pinned stream judges the same case deterministically",
-               "schedulers are given explicit parameters (gamma, total_iters, step sizes) so that a split call builds the same scheduler as the unsplit one would"]
-EXPLANATION = ("Theorems in Props/C05.lean are about Model/Checkpoint.lean (which imports the C01 serializer model); each run performs real "
-               "reconstructions with every split point, compares uninterrupted/reloaded/cloned runs, and replays the recorded event trace on the model.")
+               "schedulers are given explicit parameters (gamma, total_iters, step sizes) so that a split call builds the same scheduler as the unsplit one would",
+               "quick tier: the forced configurations and the session histories run every (call-boundary) split; random single-run configurations with more than four split points run the first, the one after one iteration, the last and one random split (thorough: every split point)"]
+EXPLANATION = ("Theorems in Props/C05.lean are about Model/Checkpoint.lean + Model/CheckpointSession.lean (which import the C01 serializer model); each run performs real "
+               "reconstructions with every split point — also call histories with rejected calls and staged optimisation — compares uninterrupted/reloaded/cloned runs, "
+               "replays the recorded event trace on the model and runs the call-level model next to the real session.")
 
 TOL_PINNED = 1e-6
 TOL_NATURAL = 1e-5
@@ -193,12 +206,20 @@ def gen_cfg(rng, idx, force=None):
 
 BAD_KINDS = ["cons-key", "cons-cat", "opt-key", "opt-type", "opt-kw", "sched-type", "sched-key", "sched-notype", "batch", "loss"]
 SESSION_FORCED = [
-    ["bad:cons-key:reset+opt", "stage-add"],            # reset + new optimizers + a misspelt constraint, then carry on
-    ["bad:opt-kw", "reset", "bad:opt-key:reset+opt"],  # a rejected optimizer configuration stays stored; the next reset meets it
-    ["stage-add", "stage-remove", "stage-add"],        # optimizers appear / disappear between stages, never a reset
-    ["bad:opt-type:opt", "stage-add", "reset"],
-    ["bad:sched-type:opt", "bad:batch", "sched"],
-    ["bad:loss:reset", "bad:cons-cat:reset+opt", "stage-add"],
+    # fixed blocks (the same for every seed): the input classes that exposed defects / seeded changes so far
+    # reset + new optimizers + a misspelt constraint, then carry on
+    {"events": ["bad:cons-key:reset+opt", "stage-add"], "active": ["object"]},
+    # a rejected optimizer configuration stays stored; the next reset meets it
+    {"events": ["bad:opt-kw", "reset", "bad:opt-key:reset+opt"], "active": ["object", "probe"], "victim": "object"},
+    # optimizers appear / disappear between stages, never a reset
+    {"events": ["stage-add", "stage-remove", "stage-add"], "active": ["object"]},
+    {"events": ["bad:opt-type:opt", "stage-add", "reset"], "active": ["probe"], "victim": "probe"},
+    # new optimizers accepted, then the scheduler (or the next model's optimizer) rejected
+    {"events": ["bad:sched-type:opt", "bad:batch", "sched"], "active": ["object", "probe"], "victim": "probe"},
+    {"events": ["bad:loss:reset", "bad:cons-cat:reset+opt", "stage-add"]},
+    # the rejected model is the FIRST of three that have optimizers: the rebuild of the models after it never runs
+    {"events": ["bad:opt-kw", "reset"], "active": ["object", "probe", "dataset"], "victim": "object", "keys3": True},
+    {"events": ["bad:opt-type:opt", "reset", "stage-remove"], "active": ["object", "probe", "dataset"], "victim": "probe", "keys3": True},
 ]
 
 
@@ -222,9 +243,12 @@ def gen_session(rng, idx, force=None):
         if rng.chance(0.2):     # alternative spellings of the type: upper case, the optimizer class itself
             d["type"] = {"sgd": rng.choice(["SGD", "class:SGD"]), "adam": rng.choice(["Adam", "class:Adam"]), "adamw": rng.choice(["AdamW", "class:AdamW"])}[d["type"]]
         return d
-    all_keys = ["object", "probe", "dataset"] if rng.chance(0.4) else ["object", "probe"]
+    fopt = force if isinstance(force, dict) else {"events": force or []}
+    all_keys = ["object", "probe", "dataset"] if (rng.chance(0.4) or fopt.get("keys3")) else ["object", "probe"]
     opt = {k: one_opt() for k in all_keys}
     active = [rng.choice(all_keys[:2])] if rng.chance(0.75) else list(all_keys[:2])       # first stage: a subset
+    if fopt.get("active"):
+        active = list(fopt["active"])
     cons = {}
     if cfg["obj_type"] == "potential":
         cons["object"] = {"positivity": False}
@@ -233,12 +257,12 @@ def gen_session(rng, idx, force=None):
     sk = rng.choice(SCHED_KINDS)
     sched0 = {k: gen_sched(rng, sk) for k in active} if sk != "none" else None
     first = {"n": rng.randint(1, 2), "opt": {k: opt[k] for k in active}, "sched": sched0, "cons": cons or None, "reset": True}
-    if rng.chance(0.15) and len(active) == len(all_keys[:2]):
+    if rng.chance(0.15) and active == all_keys[:2] and not fopt.get("active"):
         first = {"n": first["n"], "opt_list": list(active), "opt_list_form": rng.choice(["list", "tuple"]), "cons": cons or None, "reset": True}
     calls = [first]
     poisoned = set()        # models whose stored optimizer configuration was rejected (every later reset meets it again)
     was_poisoned = False
-    events = force or []
+    events = list(fopt.get("events") or [])
     if not events:
         pool = [("bad", 11), ("stage-add", 4), ("stage-remove", 2), ("reset", 2), ("sched", 1)]
         events = [rng.weighted(pool) for _ in range(rng.randint(2, 3))]
@@ -258,6 +282,8 @@ def gen_session(rng, idx, force=None):
                 c["opt"] = {k: opt[k] for k in okeys}      # valid entries come first: they take effect before the rejection
             # the model whose entry is rejected: mostly one that has an optimizer (or precedes one that has)
             victim = rng.choice(active) if (active and rng.chance(0.7)) else rng.choice(all_keys)
+            if fopt.get("victim"):
+                victim = fopt["victim"]
             if kind == "cons-key":
                 c["cons"] = {"object": {"tv_weight_xy": 0.0078125}, victim: {"no_such_constraint": 1}} if victim != "object" \
                     else {"probe": {"center_probe": False}, "object": {"no_such_constraint": 1}}
@@ -950,7 +976,7 @@ def run(ctx):
             srng = ctx.rng.fork(11)
             sess_budget = (45.0 if not ctx.thorough() else 300.0) * (2 if ctx.search_mode else 1)
             only_s = {int(x) for x in os.environ["C05_SESSION"].split(",")} if os.environ.get("C05_SESSION") else None
-            for i in range(ctx.n(9, 60)):
+            for i in range(ctx.n(10, 60)):
                 cfg = gen_session(srng.fork(i), i, SESSION_FORCED[i] if i < len(SESSION_FORCED) else None)
                 if only_s is not None and i not in only_s:
                     continue
